@@ -1055,6 +1055,16 @@ class NPMixin:
                 a_ = self.lam(lambda i_: get_(i_), (ln_,), 'int')
                 a_.meta = {'list': True}
                 args[nm] = self.new_obj(st, a_)
+        # a list literal of integers passed where the contract speaks about an integer sequence: the same sequence as an array
+        for nm in getattr(c, 'tuple_as_array', ()):
+            v = self.deref(st, args.get(nm))
+            if isinstance(v, Tup) and v.items and not any(isinstance(x, Opaque) for x in v.items):
+                items_ = [to_z3(x) for x in v.items]
+                if all(z3.is_int(x) for x in items_):
+                    t_ = z3.K(z3.IntSort(), z3.IntVal(0))
+                    for k_, x in enumerate(items_):
+                        t_ = z3.Store(t_, k_, x)
+                    args[nm] = self.new_obj(st, Arr(t_, (z3.IntVal(len(items_)),), 'int', meta={'list': True}))
         # row-wise contracts lift through boolean masks: f(X[mask]) = f(X)[mask]   (DESIGN 2.5)
         lift_mask = None
         for nm in getattr(c, 'rowwise', ()):
